@@ -336,7 +336,8 @@ def short_forms(ctx):
         for b in f.blocks:
             if b.term.k == "switch" and cfg.dominates(b.idx, t.bb) and b.idx != t.bb:
                 sl = prov.slice(f, Operand(b.term.j["discr"]))
-                if sl.has_field("arguments") and (sl.has_call("::len") or sl.has_call("::is_empty")):
+                # `.len()` / `.is_empty()` or the length read by a slice pattern (`[]`, `[x]`: MIR reads the slice's PtrMetadata)
+                if sl.has_field("arguments") and (sl.has_call("::len") or sl.has_call("::is_empty") or "PtrMetadata" in sl.binops or "Len" in sl.binops):
                     guards.append(b.idx)
         ok = bool(guards)
         ctx.ob("R13.6", "short-form|%s" % ("fill" if "..." in txt else "empty"), ok,
